@@ -42,6 +42,11 @@ def run(ctx: Ctx):
 
     generic_lints(ctx)
     additive_blocks(ctx)
+    gather_not_weights(ctx)
+    from . import c05
+
+    # which rows / columns are "differences" (their population estimates are blanked) - decided in display positions
+    c05.index_space_zip(ctx, only=("_diff_element_idxs", "diff_row_idxs", "diff_column_idxs"))
 
 
 def _bind(*names):
@@ -518,3 +523,47 @@ def additive_blocks(ctx: Ctx):
             ctx.held("additive-blocks", where, f"additive; blocks from {inherited_additive[:1]}", "")
     ctx.count("measure classes with inherited additive blocks", n)
     ctx.require_min("measure classes with inherited additive blocks", 1)
+
+
+_WS_CONTROL = """
+def _subtotal_row(self, subtotal):
+    weights = self._term_weights(subtotal, self._ncols)
+    return np.einsum("ij,j->i", self._base_values, weights)
+
+def ok(self, subtotal):
+    return np.sum(self._base_values[:, subtotal.addend_idxs], axis=1) - np.sum(self._base_values[:, subtotal.subtrahend_idxs], axis=1)
+"""
+
+
+def _weighted_sums(fn: ast.AST):
+    out = []
+    for n in ast.walk(fn):
+        if isinstance(n, ast.Call) and u(n.func) in ("np.einsum", "np.dot", "np.matmul", "np.tensordot", "np.inner", "np.average") :
+            out.append(u(n)[:70])
+        if isinstance(n, ast.BinOp) and isinstance(n.op, ast.MatMult):
+            out.append(u(n)[:70])
+        if isinstance(n, ast.Call) and isinstance(n.func, ast.Attribute) and n.func.attr == "dot":
+            out.append(u(n)[:70])
+    return out
+
+
+def gather_not_weights(ctx: Ctx):
+    """A subtotal GATHERS its addends / subtrahends and sums those.  The "vectorised" alternative - a weighted sum over the
+    whole vector with weights +1 / -1 / 0 (einsum, dot, @) - multiplies every OTHER cell by 0, and 0 x NaN is NaN: a
+    missing value in a category that takes no part in the subtotal makes the subtotal missing."""
+    tree = ast.parse(_WS_CONTROL)
+    if [len(_weighted_sums(f)) for f in tree.body] != [1, 0]:
+        raise AnalysisError("weighted-sum lint: the positive control is no longer recognised")
+    n = 0
+    found = False
+    for short in (MS, SI):
+        mod = ctx.repo.module(short)
+        for ci in mod.classes.values():
+            for m in ci.members.values():
+                n += 1
+                for t in _weighted_sums(m.node):
+                    found = True
+                    ctx.violated("signed-merge.gather", f"{short}::{ci.name}.{m.name} [{t}]", t, "sum over the gathered addends minus sum over the gathered subtrahends",
+                                 "a weighted sum over all categories: 0 x NaN = NaN, a missing value outside the subtotal's terms makes the subtotal missing")
+    if not found:
+        ctx.held("signed-merge.gather", f"{MS}, {SI}: every subtotal class", f"{n} functions: no weighted-sum (einsum / dot / @) subtotal", "", "positive control recognised")
